@@ -106,6 +106,38 @@ impl Application for OkApp {
     }
 }
 
+/// The real application, except that the request itself can ask for a failure inside request handling: a target that
+/// contains `__panic` makes the handler panic (`__panic_long`: with a long multi-byte message, `__panic_any`: with a
+/// non-string payload), `__err` makes it return Err, `__slow` makes it take 300 ms.
+#[derive(Copy, Clone)]
+pub struct MixedApp;
+impl New for MixedApp {
+    fn new() -> Self {
+        MixedApp
+    }
+}
+impl Application for MixedApp {
+    fn execute(&self, request: &Request, connection: &ConnectionInfo) -> Result<Response, String> {
+        let t = request.request_uri.as_str();
+        if t.contains("__panic_long") {
+            panic!("x{} handler failed for {}", "\u{e9}\u{20ac}".repeat(200), t);
+        }
+        if t.contains("__panic_any") {
+            std::panic::panic_any(7usize);
+        }
+        if t.contains("__panic") {
+            panic!("handler failed on purpose");
+        }
+        if t.contains("__err") {
+            return Err("handler reported an error".to_string());
+        }
+        if t.contains("__slow") {
+            std::thread::sleep(std::time::Duration::from_millis(300));
+        }
+        rws::app::App::new().execute(request, connection)
+    }
+}
+
 pub fn conn_info(request_size: i64) -> ConnectionInfo {
     ConnectionInfo {
         client: Address { ip: "127.0.0.1".to_string(), port: 40000 },
